@@ -189,7 +189,7 @@ pub fn new_net() -> NetRef {
 }
 
 pub fn sock(i: usize) -> SocketAddrV6 {
-    SocketAddrV6::new(Ipv6Addr::new(0xfd00, 0, 0, 0, 0, 0, 0, 1 + i as u16), 5540, 0, 0)
+    SocketAddrV6::new(Ipv6Addr::new(0xfd00, 0, 0, 0, 0, 0, 0, 1 + i as u16), 5540 + i as u16, 0, 0)
 }
 pub fn addr(i: usize) -> Address {
     Address::Udp(SocketAddr::V6(sock(i)))
